@@ -277,7 +277,7 @@ Seventh round (ids ending in `7`; again the twelve properties of the fifth
 round). 17 of 24 caught at once (several are variants of earlier changes).
 Strengthened after misses: `C04-A7` (C04 progress rule: an operation that runs
 the maintenance and grows nothing must bring an over-capacity cache within its
-capacity or evict a full batch), `C12-A7` (the lock-step model follows windows
+capacity or at least remove something), `C12-A7` (the lock-step model follows windows
 of queued gets *and* inserts: reads first, in recording order, then the writes;
 estimates are read after the run because only reads feed the estimator; a
 directed batch "get(a), insert(popular b), insert(a)"), `C16-A7` (STRESS for
